@@ -206,8 +206,7 @@ def fas2values(fas, dt):
     a[n // 2 + 1:] = np.flip(np.conj(fas[1:]), axis=0)
     a /= dt
     s = np.fft.ifft(a)
-    npts = int(2 ** (np.log(n) / np.log(2)))
-    s = s[:npts]
+    s = s[:n]
     return s
 
 
@@ -231,8 +230,7 @@ def fas2signal(fas, dt, stype="signal"):
     a[n // 2 + 1:] = np.flip(np.conj(fas[1:]), axis=0)
     a /= dt
     s = np.fft.ifft(a)
-    npts = int(2 ** (np.log(n) / np.log(2)))
-    s = s[:npts]
+    s = s[:n]
     if stype == 'signal':
         return Signal(s, dt)
     else:
